@@ -152,8 +152,10 @@ def run(chk):
            "tril", "take", "moveaxis", "scalar", "diff", "clip", "map_blocks", "vecdot", "searchsorted", "pad", "isin", "cumprod",
            "matrix_transpose", "overlap", "nan", "count_nonzero"]
     per = 7 if chk.tier == "quick" else 40
+    MORE = {"moveaxis": 24, "permute": 12, "index": 16, "pad": 12, "roll": 10, "take": 10, "reshape": 12, "reduce": 12, "argred": 10,
+            "concat": 10, "stack": 10, "tensordot": 10}          # functions with large parameter spaces get more draws
     for kind in ALL:
-        for j in range(per):
+        for j in range(max(per, MORE.get(kind, 0)) if chk.tier == "quick" else per * (3 if kind in MORE else 1)):
             try:
                 prog, nv = programs.gen_program(rng, max_steps=1, allow=[kind], ndim=rng.choice([3, 3, 2, 1]))
             except RuntimeError:
